@@ -60,7 +60,7 @@ Definition kv_eqb {V} (eqb : V -> V -> bool) (a b : bytes * V) : bool :=
 
 Fixpoint index_of (id : bytes) (l : alist pair) (i : nat) : nat :=
   match l with
-  | [] => 999999
+  | [] => 999
   | (k, _) :: r => if bytes_eqb k id then i else index_of id r (S i)
   end.
 
@@ -83,7 +83,7 @@ Section Cmp.
         match minting_enabled head s (snd it) (snd jd) with
         | Ok p => match pair_id hid p with
                   | Ok id => [(fst it, (fst jd, index_of id (st_pairs s) 0))]
-                  | _ => [(fst it, (fst jd, 999998%nat))]
+                  | _ => [(fst it, (fst jd, 998%nat))]
                   end
         | _ => []
         end) (number 0 toks)) (number 0 toks).
